@@ -101,7 +101,11 @@ def handler : Handler S where
           | .permanent, _ => "permanent"
           | .retryable, _ => "retryable"
           | .throttle d, _ => s!"throttle:{d}"
-        ({ s with cur := none, specX := some (shownOf (specHttpX ⟨st, ra, body⟩), "http-exporter " ++ " ".intercalate rest) },
+        -- oracle: the trait-free specification wherever the exporter is claimed to follow it (`C15_expHttpX_matches_spec_partial`);
+        -- outside that domain (delay-seconds overflow, undecodable 2xx body) the recorded behaviour of the two witnesses
+        let r : HttpResp := ⟨st, ra, body⟩
+        let (want, tag) := if r.inDomain then (specHttpXPure r, "http-exporter ") else (specHttpX r, "http-exporter-recorded ")
+        ({ s with cur := none, specX := some (shownOf want, tag ++ " ".intercalate rest) },
          [s!"obs xverdict {shownOf (expHttpX ⟨st, ra, body⟩)}"])
       | _, _, _ => (s, ["obs bad-op"])
     | "xgrpc" :: rest =>
@@ -175,7 +179,9 @@ def handler : Handler S where
         if v = want then { s with specX := none }
         else
           let t := if what.startsWith "grpc" then "grpc" else "http"
-          let kind := if v = "panic" then "panic" else if want.startsWith "throttle" then "requested-delay-not-honoured" else "classification-differs-from-spec"
+          let kind := if v = "panic" then "panic"
+                      else if what.startsWith "http-exporter-recorded" then "behaviour-outside-spec-domain-changed"
+                      else if want.startsWith "throttle" then "requested-delay-not-honoured" else "classification-differs-from-spec"
           { s with specX := none, fails := s!"sig=C15/{t}-exporter/{kind} {what} spec={want} exporter={v}" :: s.fails }
       | none => { s with fails := "sig=C15/harness/xverdict-without-op" :: s.fails }
     | _ :: "conc" :: rest =>
